@@ -14,7 +14,7 @@ from vf.ref import respformat
 
 ID = "C03"
 BOUNDS = {
-    "quick": "18 requests x every {sync, awaitable} assignment of <=4 sites x every completion order of the awaitables (complete) x early-release deviations <=1; identity adversary: <=1 address reuse of a dead FieldDetails on all-awaitable and single-awaitable assignments",
+    "quick": "20 requests x every {sync, awaitable} assignment of <=4 sites x every completion order of the awaitables (complete) x early-release deviations <=1; identity adversary: <=1 address reuse of a dead FieldDetails on all-awaitable and single-awaitable assignments",
     "thorough": "early-release deviations <=3; <=3 address reuses (cap 400000 executions per assignment)",
 }
 RULE = (
@@ -47,6 +47,9 @@ def make_requests():
         ("error_race", "S1", "{ a { nn name self { nn } } }", [("fielderr", "A.nn"), ("field", "A.name"), ("field", "A.self")], {}),
         ("error_root", "S1", "{ an { selfnn { nn name } } a { name } }", [("fielderr", "A.nn"), ("field", "A.name"), ("field", "Query.a"), ("field", "Query.an")], {}),
         ("is_type_of", "S1", "{ ns { id name } }", [("ito", "A"), ("ito", "B"), ("field", "A.name")], {"no_typename": True}),
+        ("is_type_of_err", "S1", "{ ns { id ... on A { nn } name } }", [("ito", "A"), ("ito", "B"), ("fielderr", "A.nn")], {"no_typename": True}),
+        # resolve_type names a type whose own is_type_of refuses the value: the position is nulled with an error, whenever resolve_type answers
+        ("rt_ito_reject", "S1", "{ ns { id name } n { id } u { ... on B { b } } }", [("rt", "Node"), ("ito", "A"), ("field", "B.name")], {"no_ref": True}),
         ("async_iter", "S1", "{ a { peers { nn } name } }", [("aiter", "A.peers"), ("field", "A.nn"), ("field", "A.name")], {}),
         ("aiter_error", "S1", "{ a { peers { nn } kids { id } } }", [("aiter", "A.peers"), ("fielderr", "A.nn"), ("items", "A.kids")], {}),
         ("mutation", "S3", "mutation { first { v } second third { v nn } }", [("field", "Mutation.first"), ("field", "R.v"), ("field", "Mutation.second"), ("field", "Mutation.third")], {}),
@@ -421,6 +424,22 @@ def run_request(req, mask, tier, res, only_choices=None, mode="sched"):
         data = json.dumps(r.data, default=repr)
         if sync_data is not None and data != sync_data:
             res.violation("data_differs_from_sync", f"{label}: data {data} but synchronous execution gives {sync_data}", payload)
+            return
+        if options.get("no_ref"):
+            # behaviour outside the reference executor's model (is_type_of refusing a value): the fully synchronous execution is the reference
+            gp = sorted(tuple(e.path or ()) for e in r.errors or [])
+            if gp != sync_paths:
+                res.violation("error_paths_differ_from_sync", f"{label}: error paths {gp}, synchronous execution {sync_paths}", payload)
+                return
+            probs = respformat.check_result(r)
+            if probs:
+                res.violation("response_malformed", f"{label}: {probs}", payload)
+            elif leftovers:
+                res.violation("task_left_pending", f"{label}: {leftovers}", payload)
+            elif errs:
+                res.violation("loop_error_logged", f"{label}: {errs}", payload)
+            else:
+                res.outcome((name, tuple(trace)))
             return
         if data != ref_data:
             res.violation("data_differs_from_reference", f"{label}: data {data} reference {ref_data}", payload)
